@@ -18,7 +18,8 @@ FLAVOURS = ["plain_str", "str_ids", "str_hook", "obj_cb", "obj_derived", "obj_de
 KEY_MAPS = {"default": True, "off": False,
             "custom": {"data_id": "i", "str": "s", "kind": "k", "type": "t", "name": "n", "age": "a"}}
 VALUE_MAPS = {"default": True, "off": False,
-              "custom": {"type": ["person", "dept"], "title": [f"d{i}" for i in range(64)], "age": list(range(60, 10, -1))}}  # age: int values
+              "custom": {"type": ["person", "dept"], "role": ["dept", "unused", "person"], "title": [f"d{i}" for i in range(64)],
+                         "age": list(range(60, 10, -1))}}  # age: int values; role: the values of "type" at other positions
 COMPRESSIONS = {"off": False, "true": True, "stored": zipfile.ZIP_STORED, "deflated": zipfile.ZIP_DEFLATED,
                 "bzip2": zipfile.ZIP_BZIP2, "lzma": zipfile.ZIP_LZMA}
 TARGETS = ["path", "stream"]
@@ -67,6 +68,7 @@ def ser_cb(node, data):
     d = node.data
     if isinstance(d, Obj):
         data["type"] = d.typ
+        data["role"] = d.typ  # same values as "type": a value map may list them in another order
         data["name"] = d.name
         if d.age is not None:
             data["age"] = d.age
